@@ -1,11 +1,17 @@
 from harness.props import base
 from harness import preds
 LEVEL = 'proof'
-VFILES = ['Lines.v', 'Tree.v', 'RegexFacts.v', 'TokTiles.v', 'Properties/C01.v', 'Properties/C09.v']
-EXPLANATION = ('Theorems for all inputs: the line list concatenates to the input; the token stream tiles the lines (tok_tiles, guarded tokenizer model, see C09); '
-               'get_code of any tree = in-order leaf texts; every subtree is a contiguous slice. Not yet proved: the engine keeps every token as a leaf '
-               '(parse_keeps_tokens, C01_partial) - covered by the parse correspondence (model = implementation) plus the tiles/get_code/slice predicates on '
-               'implementation trees.')
+VFILES = ['Lines.v', 'Tree.v', 'RegexFacts.v', 'TokTiles.v', 'ParseKeeps.v', 'Model.v', 'Properties/C09.v', 'Properties/C01.v']
+TECHNIQUE = 'Coq proof of the round trip on the whole Gallina pipeline (lines -> tokenizer -> engine with error recovery -> tree) for all texts + regenerated tables + tok/parse/lines correspondence + predicate search'
+EXPLANATION = ('C01_roundtrip, closed under the global context: for every shipped version, both modes, every start rule and EVERY text, if the pipeline model '
+               '(split_keep ; tokenize_lines ; parse with error recovery, instantiated with the regenerated regexes and automata) returns a tree, then get_code of '
+               'the tree is the text; corollaries: every subtree is a contiguous slice, the in-order leaves tile the input. It composes split_keep_concat, '
+               'tok_tiles (tokens tile the lines), parse_keeps_text (the engine, including stack removal, error nodes/leaves, suite and parameter regrouping, '
+               'keeps the text of every token) and get_code_leaves. The model carries explicit guards (Err Guard / PGuard) at the few places where the Python code '
+               'relies silently on f-string bookkeeping and on the grammar shape of suite/parameters; the theorem is about runs that return a tree, and the '
+               'lines/tok/parse correspondence streams establish model = implementation (never a guard) on all generated inputs. Decoding of bytes input is an '
+               'oracle (C15); the predicate search checks tiles / get_code / every subtree slice / bytes round trip on implementation trees.')
+LEVEL_TEXT = EXPLANATION
 
 
 def pred(v, code, m):
